@@ -35,6 +35,9 @@ def tables(grid, tid):
     }
 
 
+ROUTE = [0]
+
+
 def run(ck, replay=None):
     ck.sany("MC_Grid", "Trace_Grid")
     cfg = f"MC_Grid_{ck.tier}.cfg"
@@ -75,6 +78,17 @@ def run(ck, replay=None):
         # anisotropic voxel sizes must not influence numbering
         vs = [rng.choice([0.1, 0.5, 2.0, 3e-3]) for _ in s]
         events.append(tables(darsia.Grid(s, vs), "grid-aniso:" + "x".join(map(str, s))))
+        # the shape in the other forms callers hold it: list, integer arrays (np.array(image.num_voxels), shape // 2) - the
+        # caller's array is not the grid's to modify
+        ROUTE[0] += 1
+        if ROUTE[0] % 3 == 0:
+            events.append(tables(darsia.Grid(list(s), voxel_size=list(vs)), "grid-list:" + "x".join(map(str, s))))
+        else:
+            sarr = np.array(s, dtype=np.int64 if ROUTE[0] % 3 == 1 else np.int32)
+            t_ = tables(darsia.Grid(sarr, np.array(vs)), "grid-array:" + "x".join(map(str, s)))
+            if not np.array_equal(sarr, np.array(s)):
+                t_["shape"] = [-1] * len(s)          # the caller's shape array was written to
+            events.append(t_)
     # image-derived grids beyond the TLC bound (trace spec is unbounded)
     nimg = 6 if ck.tier == "quick" else 40
     for i in range(nimg):
